@@ -221,12 +221,18 @@ def tlc(module, cfg, wd, workers=8, simulate=None, depth=None, tseed=None, timeo
                     res.postcondition_failed = True
                 if s.startswith("Error:") and not res.violated and not res.postcondition_failed:
                     errbuf.append(s)
+                if s.startswith("The coverage statistics at"):
+                    res.coverage_zero = []      # interim dumps are superseded by the final one
                 m = re.match(r"<(\w+) line .* of module .*>: (\d+):(\d+)", s)
                 if m and coverage and m.group(2) == "0" and m.group(3) == "0":
                     res.coverage_zero.append(m.group(1))
             p.wait()
             timer.cancel()
         finally:
+            try:
+                timer.cancel()
+            except Exception:
+                pass
             if p.poll() is None:
                 p.kill()
     res.rc = p.returncode
